@@ -46,6 +46,9 @@ func NewHyperLogLog(numRegisters uint64) (*HyperLogLog, error) {
 
 // Reset sets all values in the _registers_ slice to zero
 func (h *HyperLogLog) Reset() {
+	h.lock.Lock()
+	defer h.lock.Unlock()
+
 	for i := range h.registers {
 		h.registers[i] = 0
 	}
@@ -101,6 +104,9 @@ func (h *HyperLogLog) Equals(g *HyperLogLog) bool {
 
 // Export JSON marshals the HyperLogLog and returns a byte slice containing the data
 func (h *HyperLogLog) Export() ([]byte, error) {
+	h.lock.Lock()
+	defer h.lock.Unlock()
+
 	return json.Marshal(hyperLogLogJSON{h.numRegisters, h.numBytesPerHash, h.correctionBias, h.registers, ""})
 }
 
@@ -122,6 +128,9 @@ func (h *HyperLogLog) Import(data []byte) error {
 // number of bytes written.
 // It can be used to write to disk (using a file stream) or to network.
 func (h *HyperLogLog) WriteTo(stream io.Writer) (int64, error) {
+	h.lock.Lock()
+	defer h.lock.Unlock()
+
 	err := binary.Write(stream, binary.BigEndian, h.numRegisters)
 	if err != nil {
 		return 0, err
